@@ -2,6 +2,7 @@
 from __future__ import annotations
 import hashlib
 import os
+import re
 import shutil
 import tempfile
 from pathlib import Path
@@ -36,7 +37,7 @@ ASSUMPTIONS = [
 
 def budget(tier):
     if tier == "quick":
-        return dict(examples=5, shards=16, shrink_calls=25)
+        return dict(examples=8, shards=16, shrink_calls=25)
     return dict(examples=120, shards=16, shrink_calls=300)
 
 
@@ -87,10 +88,10 @@ def _export_case(draw):
     d = draw(_case())
     d["kind"] = "export"
     # API users give numbers as well as expression strings
-    if d["rate_mod"] or draw(st.booleans()):
-        d["rate_mod"] = {draw(st.sampled_from(["1", "2"])): draw(st.sampled_from([0.0, 0.0, 1.0e-10, "0.0", "1.0e-9 * nH"]))}
+    if d["rate_mod"] or draw(st.integers(0, 3)) > 0:
+        d["rate_mod"] = {draw(st.sampled_from(["1", "2"])): draw(st.sampled_from([0.0, 0.0, 0.0, 1.0e-10, "0.0", "1.0e-9 * nH"]))}
     # the project directory may already hold an earlier export of another network (export(..., overwrite=True) again)
-    if draw(st.booleans()):
+    if draw(st.integers(0, 2)) == 0:
         prev = draw(_case())
         d["previous"] = {k: prev[k] for k in prev if k != "spacing"}
     return d
@@ -416,8 +417,13 @@ def _meaning(projdir, backend):
 
     pr = Project(projdir, *backend)
     fex = pr.fex_polys()
+    # the rate statements as text (blank-normalised): the same reaction file and modifiers give the same statements
+    stem = "naunet_ode" if backend[0] == "odeint" else "naunet_rates"
+    ext = "cu" if backend[2] == "gpu" else "cpp"
+    src = Path(projdir) / "src" / f"{stem}.{ext}"
+    rates = [re.sub(r"\s+", " ", m).strip() for m in re.findall(r"^[ \t]*(?:if[^\n;]*\{[ \t]*)?k\[\d+\][ \t]*=[^;]*;", src.read_text(), re.M)] if src.exists() else []
     return {"idx": sorted(pr.idx_table().items()), "fex": {str(k): str(v) for k, v in sorted(fex.items())},
-            "sizes": [pr.neq, pr.nspec, pr.nreac]}
+            "sizes": [pr.neq, pr.nspec, pr.nreac], "rates": rates}
 
 
 def rerender_exported(payload):
@@ -574,8 +580,13 @@ def check_export(d):
             failures.append((key, f"`naunet render` in the exported project: {why}"))
         elif res["cli"]["meaning"] != res["api_meaning"]:
             a, b = res["api_meaning"], res["cli"]["meaning"]
-            what = "sizes" if a["sizes"] != b["sizes"] else "index-table" if a["idx"] != b["idx"] else "right-hand-side"
-            failures.append((f"export/rerender-differs{tag}/{what}", f"`naunet render` in the exported project gives another {what}: {str(b[what if what != 'index-table' else 'idx'])[:200]} vs {str(a[what if what != 'index-table' else 'idx'])[:200]} rendered by export()"))
+            what = "sizes" if a["sizes"] != b["sizes"] else "index-table" if a["idx"] != b["idx"] else "right-hand-side" if a["fex"] != b["fex"] else "rate-statements"
+            fld = {"sizes": "sizes", "index-table": "idx", "right-hand-side": "fex", "rate-statements": "rates"}[what]
+            av, bv = a[fld], b[fld]
+            if what == "rate-statements":
+                pairs = [(x, y) for x, y in zip(av, bv) if x != y]
+                av, bv = (pairs[0][0], pairs[0][1]) if pairs else (av, bv)
+            failures.append((f"export/rerender-differs{tag}/{what}", f"`naunet render` in the exported project gives another {what}: {str(bv)[:200]} vs {str(av)[:200]} rendered by export()"))
     # user-given binding energies / yields must be in the exported tables (the export lists every ice species)
     for k, v in d["binding"].items():
         if float(ch["species"]["binding_energy"].get(k, float("nan"))) != float(v):
